@@ -39,6 +39,13 @@ class BallCountHandler(BallDeviceStateHandler):
         self._ball_count_changed_futures.append(future)
         return future
 
+    def wake_waiting_sources(self):
+        """Let sources which wait for free space in wait_for_ready_to_receive check again."""
+        for future in self._ball_count_changed_futures:
+            if not future.done():
+                future.set_result(self._ball_count)
+        self._ball_count_changed_futures = []
+
     def stop(self):
         """Stop counter."""
         super().stop()
